@@ -3,15 +3,14 @@
 import os
 import vf, e1, c07_oracle
 
-ROOTS = [  # (name, R_* code as C token)
-    ("add", "R_ADD"), ("sub", "R_SUB"), ("mul", "R_MUL"), ("div", "R_DIV"), ("mod", "R_MOD"),
-    ("bitand", "R_BITAND"), ("bitor", "R_BITOR"), ("bitxor", "R_BITXOR"), ("shl", "R_SHL"), ("shr", "R_SHR"),
-    ("eq", "R_EQ"), ("ne", "R_NE"), ("lt", "R_LT"), ("le", "R_LE"), ("logand", "R_LOGAND"), ("logor", "R_LOGOR"),
-    ("comma", "R_COMMA"), ("neg", "R_NEG"), ("bitnot", "R_BITNOT"), ("not", "R_NOT"), ("cond", "R_COND"),
-    ("cast", "R_CASTROOT"),
-]
+ROOTS = ["add", "sub", "mul", "div", "mod", "bitand", "bitor", "bitxor", "shl", "shr", "eq", "ne", "lt", "le",
+         "logand", "logor", "comma", "neg", "bitnot", "not", "cond", "cast"]
+# operand-operator kinds (R_* codes of ref_eval.h, in enum order)
+KINDS = ["add", "sub", "mul", "div", "mod", "bitand", "bitor", "bitxor", "shl", "shr", "eq", "ne", "lt", "le",
+         "logand", "logor", "comma", "neg", "bitnot", "not", "cond"]
+QUICK_D2 = [(r, k) for r in ("cast", "add", "shr", "div", "lt", "cond") for k in ("sub", "shl", "bitnot", "neg", "le")]
 # host-level signed overflow / shift checks inside eval2 are not part of C07 (see chk.outside)
-FLAGS = ("--unwinding-assertions", "--div-by-zero-check", "--no-signed-overflow-check", "--no-undefined-shift-check",
+FLAGS = ("--sat-solver", "cadical", "--unwinding-assertions", "--div-by-zero-check", "--no-signed-overflow-check", "--no-undefined-shift-check",
          "--drop-unused-functions", "--no-malloc-may-fail")
 RC = ("eval_double:cut_eval_double",)
 
@@ -37,9 +36,13 @@ def main(tier, only=None):
         "cbmc's signed-overflow and undefined-shift checks are switched off for these harnesses, div-by-zero is on)",
         "trees deeper than the stated depth; operands of * / % wider than the stated restriction",
     ]
-    chk.bounds += ["fold: root operator (22 kinds, one obligation each) over operands that are a leaf or (depth 2) an "
-                   "operator node of symbolic kind (20 kinds) over leaves; leaf = optional cast (8 integer types; "
-                   "_Bool casts in fold-bool/*) of a literal of type int/unsigned/long/unsigned long with ANY value",
+    chk.bounds += ["fold/d1: each of the 22 root operators over leaves; leaf = optional cast (8 integer types; _Bool "
+                   "casts in fold-bool/*) of a literal of type int/unsigned/long/unsigned long with ANY value of that "
+                   "type (inductive step: eval2 of a node depends only on kind, type and the operands' folded values/types)",
+                   "fold/d2: root operator over operator nodes (every operand) of one kind over leaves, for %s "
+                   "(root,kind) pairs; literal values range over the neighbourhoods [-4,3] of 0, +-2^7, +-2^8, +-2^15, "
+                   "+-2^16, +-2^31, +-2^32, +-2^63 wrapped into the literal's type"
+                   % ("all 22x21" if thorough else "%d selected" % len(QUICK_D2)),
                    "for * the right operand is restricted to [-128,127]; for / and % additionally the left operand "
                    "to [0,65535] (SAT cannot decide 64x64 multiplier/divider equivalence)"]
 
@@ -52,21 +55,21 @@ def main(tier, only=None):
                     family="oracle")
 
     hs = []
+    H = lambda fn, key, defs, fam, tmo=300: e1.H(fn, key, unwind=24, defines=defs, flags=FLAGS, std=False,
+                                                  replace_calls=RC, timeout=tmo, family=fam)
     if want("fold"):
-        for name, code in ROOTS:
-            for depth in ((1, 2) if True else (1,)):
-                hs.append(e1.H("h_fold", "fold/d%d/%s" % (depth, name), unwind=8,
-                               defines=("ROOT=%s" % code, "DEPTH=%d" % depth), flags=FLAGS, std=False,
-                               replace_calls=RC, timeout=900 if thorough else 300, family="fold"))
+        for r in ROOTS:
+            hs.append(H("h_d1_" + r, "fold/d1/%s" % r, (), "fold"))
+        pairs = [(r, k) for r in ROOTS for k in KINDS] if thorough else QUICK_D2
+        for r, k in pairs:
+            hs.append(H("h_d2_" + r, "fold/d2/%s/%s" % (r, k), ("KSET=%d" % (1 << KINDS.index(k)),), "fold",
+                        900 if thorough else 300))
     if want("fold-bool"):
-        for name, code in (("cast", "R_CASTROOT"), ("add", "R_ADD"), ("cond", "R_COND")):
-            hs.append(e1.H("h_fold", "fold-bool/d1/%s" % name, unwind=8,
-                           defines=("ROOT=%s" % code, "DEPTH=1", "CASTSET=1"), flags=FLAGS, std=False,
-                           replace_calls=RC, timeout=300, family="fold-bool"))
+        for r in ("cast", "add", "cond", "not", "logand"):
+            hs.append(H("h_d1_" + r, "fold-bool/d1/%s" % r, ("CASTSET=1",), "fold-bool"))
     if want("divzero"):
-        for name, code in (("div", "R_DIV"), ("mod", "R_MOD")):
-            hs.append(e1.H("h_divzero", "divzero/%s" % name, unwind=8, defines=("ROOT=%s" % code, "DEPTH=2"),
-                           flags=FLAGS, std=False, replace_calls=RC, timeout=300, family="divzero"))
+        for r in ("div", "mod"):
+            hs.append(H("h_divzero_" + r, "divzero/%s" % r, (), "divzero"))
     if hs:
         e1.run_set(chk, "c07/fold.c", hs, workers=8, extra_src=extra)
 
